@@ -187,7 +187,16 @@ def run(ctx):
         for p in prints + failed:
             ctx.check('C20.O1', bef.ev_reaches(e, p) and not bef.ev_reaches(p, e), bef.name, 'status-line:after-output', bef.where(e),
                       'the command\'s status line is printed before its FAILED header / output')
-    ctx.floor('C20.O1', 8)
+    # ... and it is always there: for a command that does not own the console, nothing lets BuildEdgeFinished reach the
+    # FAILED header or the output without having printed the status line of that command just before
+    for p_ in prints + failed:
+        r = bef.find_path(None, lambda x: x is p_, from_succ=bef.entry, sensitive=False, is_blocker=lambda x: x in ps,
+                          edge_ok=lambda b2, i2, s3: not any(pol is True and (mentions_call(a, 'Edge::use_console') or mentions_field(a, 'Edge::pool_'))
+                                                             for k_, pol, a in bef.edge_facts(b2, i2)))
+        ctx.check('C20.O1', r is None and bool(ps), bef.name, 'status-line:skipped-before-output', bef.where(p_),
+                  'only a console command has its output / FAILED header printed without its status line directly before',
+                  witness=None if r is None else {'blocks': r[0]})
+    ctx.floor('C20.O1', 11)
 
     # ---- R1: counters -----------------------------------------------------------------------------------
     R('C20.R1', 'R', 'started/finished/total have exactly the writers BuildEdgeStarted / '
